@@ -267,22 +267,49 @@ def r6(R):
 # ------------------------------------------------------------------ C06.R7
 @rule('C06.R7', 'undo decides "nothing changed since" by comparing the data '
       'of the record being undone with the data of the object\'s CURRENT '
-      'record', props=['C03'], min_instances=1)
+      'record, and hands the resolver the current data itself',
+      props=['C03', 'C10'], min_instances=1)
 def r7(R):
-    """Flow-sensitive kinds of the locals of _transactionalUndoRecord:
+    """Flow-sensitive kinds of the values in _transactionalUndoRecord:
     'undone'  = loaded through the position of the record being undone
                 (the `pos` parameter),
     'current' = what _undoDataInfo() reports for the current record, or
                 loaded through the current record's data pointer.
     The inequality that switches from copying to merging must compare one
     of each; comparing two loads of the same record is always "equal" and
-    turns every undo into a blind overwrite of later changes."""
+    turns every undo into a blind overwrite of later changes.  What
+    _undoDataInfo reports as current data may be empty (the current record
+    is a backpointer): it must have been loaded before it is handed to the
+    resolver as the committed state (the resolver's fallback, loadSerial of
+    the current tid, fails inside a multi-undo, where that tid is the
+    transaction being written)."""
     cls = R.prog.cls(FS)
     f = R.method(cls, '_transactionalUndoRecord')
     g, b, F = R.cfg(f, cls, max_depth=0)
     ps = [p for p in f.params if p != 'self']
     undone_pos = ps[1]
     seen = [0]
+
+    def kind_of(e, k):
+        """kind of an expression under the name kinds `k`"""
+        if isinstance(e, ast.Name):
+            v = k.get(e.id)
+            return 'current' if v in ('current', 'current?') else v
+        if isinstance(e, ast.Subscript):
+            return kind_of(e.value, k)
+        if isinstance(e, ast.Call) and dotted(e.func) and dotted(
+                e.func)[-1].startswith('_loadBack') and len(e.args) >= 2 \
+                and isinstance(e.args[1], ast.Name):
+            p_ = e.args[1].id
+            if p_ == undone_pos:
+                return 'undone'
+            if k.get(p_) == 'current-ptr':
+                return 'current'
+            return None
+        if isinstance(e, ast.BoolOp):
+            ks = {kind_of(v, k) for v in e.values}
+            return ks.pop() if len(ks) == 1 else None
+        return None
 
     def kinds_after(node, kinds, lab):
         a = node.ast
@@ -291,44 +318,44 @@ def r7(R):
             return kinds
         d = dict(kinds)
         v = a.value
-        sub = None
-        if isinstance(v, ast.Subscript):          # f(...)[0]
-            sub, v = v, v.value
-        kind = None
-        ptr = False
-        if isinstance(v, ast.Call) and dotted(v.func):
-            fn_ = dotted(v.func)[-1]
-            if fn_ == '_undoDataInfo':
-                kind, ptr = 'current', True
-            elif fn_.startswith('_loadBack') and len(v.args) >= 2:
-                p_ = v.args[1]
-                if isinstance(p_, ast.Name):
-                    if p_.id == undone_pos:
-                        kind = 'undone'
-                    elif d.get(p_.id) == 'current-ptr':
-                        kind = 'current'
+        inner = v.value if isinstance(v, ast.Subscript) else v
+        info = isinstance(inner, ast.Call) and dotted(inner.func) and \
+            dotted(inner.func)[-1] == '_undoDataInfo'
+        kind = kind_of(v, d)
         for t in a.targets:
             names = [x.id for x in ast.walk(t) if isinstance(x, ast.Name)]
             for i, nm in enumerate(names):
                 d.pop(nm, None)
-                if kind and ptr and isinstance(t, ast.Tuple):
+                if info and isinstance(t, ast.Tuple):
                     # ctid, cdataptr, current_data = self._undoDataInfo(..)
+                    # (the data may be empty: 'current?')
                     d[nm] = 'current-ptr' if i == 1 else (
-                        'current' if i == 2 else 'current-tid')
+                        'current?' if i == 2 else 'current-tid')
                 elif kind:
                     d[nm] = kind
+                elif isinstance(v, ast.Constant) and isinstance(
+                        t, ast.Name) and isinstance(v.value, bool):
+                    d[nm] = v.value
         return frozenset(d.items())
 
     def edge(node, st, lab, tgt):
         kinds = kinds_after(node, st, lab)
         if node.kind == 'test' and lab in ('T', 'F'):
+            k = dict(kinds)
             for e, truth in implied_atoms(node.ast, lab):
+                # boolean flags assigned only literals (copy = True/False)
+                if isinstance(e, ast.Name) and isinstance(k.get(e.id), bool):
+                    if k[e.id] != truth:
+                        return PRUNE
+                # `if current_data:` / `if not current_data:` settles
+                # whether the reported data is there
+                if isinstance(e, ast.Name) and k.get(e.id) == 'current?' \
+                        and truth:
+                    k[e.id] = 'current'
+                    kinds = frozenset(k.items())
                 if isinstance(e, ast.Compare) and len(e.ops) == 1 and \
-                        isinstance(e.ops[0], (ast.Eq, ast.NotEq)) and \
-                        isinstance(e.left, ast.Name) and isinstance(
-                            e.comparators[0], ast.Name):
-                    k = dict(kinds)
-                    ks = [k.get(e.left.id), k.get(e.comparators[0].id)]
+                        isinstance(e.ops[0], (ast.Eq, ast.NotEq)):
+                    ks = [kind_of(e.left, k), kind_of(e.comparators[0], k)]
                     if 'undone' in ks or 'current' in ks:
                         seen[0] += 1
                         if sorted(x or '?' for x in ks) != ['current',
@@ -341,11 +368,32 @@ def r7(R):
                                 'with the data of the current record, or a '
                                 'later change is overwritten without merge '
                                 'or UndoError' % (
-                                    ast.unparse(e), ks[0] or 'an unknown '
-                                    'value', ks[1] or 'an unknown value'))
+                                    ast.unparse(e)[:80], ks[0] or 'an '
+                                    'unknown value', ks[1] or 'an unknown '
+                                    'value'))
         return kinds
 
-    vs, stats = explore(g, frozenset(), edge=edge)
+    def at(node, st):
+        k = dict(st)
+        for op in F.ops(node):
+            if op.kind == 'call' and op.path and \
+                    op.path[-1] == 'tryToResolveConflict':
+                for a_ in op.ast.args:
+                    if isinstance(a_, ast.Name) and k.get(
+                            a_.id) == 'current?':
+                        return Violation(
+                            'the resolver is handed `%s` as the committed '
+                            'state on a path where it may still be the empty '
+                            'placeholder _undoDataInfo reports for a current '
+                            'record that is a backpointer: the resolver then '
+                            'tries loadSerial(oid, <current tid>), which '
+                            'fails when that tid is the undo transaction '
+                            'being written (undo of several transactions at '
+                            'once), and a mergeable undo is refused'
+                            % a_.id)
+        return st
+
+    vs, stats = explore(g, frozenset(), at=at, edge=edge)
     R.count(stats)
     R.instance('FileStorage._transactionalUndoRecord data comparison')
     R.require(seen[0] or vs, 'the comparison of undone and current data '
